@@ -3,8 +3,13 @@ package harness
 // C15 — no-load RTT baseline is a recent true minimum and is refreshed by probing.
 
 import (
+	"fmt"
+	"math"
+	"math/rand"
 	"testing"
 
+	"github.com/platinummonkey/go-concurrency-limits/core"
+	"github.com/platinummonkey/go-concurrency-limits/limit"
 	"pgregory.net/rapid"
 
 	"verifharness/kit"
@@ -167,5 +172,103 @@ func TestC15_baseline(t *testing.T) {
 		ID: "C15", Quick: 1500, Thor: 200_000,
 		Rule: "RTT plateaus/steps (with jitter) on Vegas/Gradient; non-trivial = a step up after a low sample and a run of slower samples longer than half the staleness bound",
 		Gen:  genC15, Run: runC15,
+	})
+}
+
+// ---- "unset" probe multipliers ---------------------------------------------------------------------
+//
+// The staleness bound is stated for every probe multiplier. A non-positive multiplier means "not set" (the
+// library's own default constructors pass -1) and selects the default multiplier, whatever its value: a Vegas
+// limit built with a negative multiplier must therefore behave, sample for sample, like the one built with 0
+// (same jitter source), and the default constructors like the long constructor with every argument unset. The
+// numeric default is not assumed.
+
+type c15uCase struct {
+	Cfg  LimitCfg `json:"cfg"`
+	Neg  int      `json:"neg"`  // the negative multiplier of twin B
+	Ctor int      `json:"ctor"` // twin B: 0 long constructor, 1 NewDefaultVegasLimitWithLimit, 2 NewDefaultVegasLimit (initial 20)
+	Segs []c15Seg `json:"segs"`
+}
+
+func runC15U(_ *testing.T, c c15uCase) kit.Outcome {
+	type obs struct {
+		est  int
+		base int64
+	}
+	feed := func(l core.Limit) (tr []obs, resets int) {
+		var prev int64
+		for _, sg := range c.Segs {
+			for i := 0; i < sg.Len; i++ {
+				rtt := sg.RTT
+				if sg.Jit > 0 {
+					rtt += int64(i*7919) % (sg.Jit + 1)
+				}
+				l.OnSample(0, rtt, Sample{Rel: sg.Rel, Inf: 3}.inflight(l.EstimatedLimit()), sg.Drop)
+				base := l.(rttNoLoader).RTTNoLoad()
+				if base > prev && prev != 0 {
+					resets++ // the baseline can only rise through a reset
+				}
+				prev = base
+				tr = append(tr, obs{l.EstimatedLimit(), base})
+			}
+		}
+		return
+	}
+	cfgA := c.Cfg
+	cfgA.ProbeMult = 0
+	a, resetsA := feed(buildLimit(cfgA, nil).Inner)
+	var lb core.Limit
+	switch c.Ctor {
+	case 1:
+		rand.Seed(c.Cfg.JitterSeed)
+		lb = limit.NewDefaultVegasLimitWithLimit("t", c.Cfg.Initial, nil, nil)
+	case 2:
+		rand.Seed(c.Cfg.JitterSeed)
+		lb = limit.NewDefaultVegasLimit("t", nil, nil)
+	default:
+		cfgB := c.Cfg
+		cfgB.ProbeMult = c.Neg
+		lb = buildLimit(cfgB, nil).Inner
+	}
+	b, resetsB := feed(lb)
+	for i := range a {
+		if a[i] != b[i] {
+			return kit.Viol("vegas:unset-multiplier", "Vegas built with probe multiplier 0 and its twin (constructor variant %d, multiplier %d: both \"not set\") diverge at sample %d: estimate/baseline %v vs %v; baseline resets seen: %d vs %d",
+				c.Ctor, c.Neg, i+1, a[i], b[i], resetsA, resetsB)
+		}
+	}
+	return kit.Outcome{NonTrivial: resetsA >= 1, Labels: []string{fmt.Sprintf("ctor:%d", c.Ctor), fmt.Sprintf("resets>=1:%v", resetsA >= 1)}}
+}
+
+func TestC15_unset_multiplier(t *testing.T) {
+	kit.RequireMode(t, "std")
+	kit.Check(t, kit.Prop[c15uCase]{
+		ID: "C15", Quick: 600, Thor: 60_000,
+		Rule: "Vegas twins fed the same RTT plateaus/steps from the same jitter source: probe multiplier 0 vs a negative one, or vs the library's default constructors (which pass -1); estimates and baselines must agree sample for sample; non-trivial = the baseline was reset (rose) at least once",
+		Gen: func(t *rapid.T) c15uCase {
+			c := c15uCase{Neg: rapid.SampledFrom([]int{-1, -1, -2, -30, math.MinInt32}).Draw(t, "neg"), Ctor: rapid.SampledFrom([]int{0, 0, 1, 2}).Draw(t, "ctor")}
+			c.Cfg = LimitCfg{Algo: "vegas", JitterSeed: rapid.Int64Range(1, 1<<40).Draw(t, "jitter"), Initial: rapid.IntRange(1, 12).Draw(t, "initial")}
+			switch c.Ctor {
+			case 0:
+				c.Cfg.Max = rapid.IntRange(c.Cfg.Initial, 20).Draw(t, "max")
+				c.Cfg.Smoothing = genSmoothing().Draw(t, "smoothing")
+			case 1:
+				c.Cfg.Max, c.Cfg.Smoothing = -1, -1 // what the default constructor passes: "not set"
+			case 2:
+				c.Cfg.Initial, c.Cfg.Max, c.Cfg.Smoothing = -1, -1, -1
+			}
+			nseg := rapid.IntRange(2, 6).Draw(t, "nseg")
+			for i := 0; i < nseg; i++ {
+				s := c15Seg{RTT: rapid.OneOf(rapid.Int64Range(1, 100), rapid.Int64Range(1, 10_000_000)).Draw(t, "rtt"),
+					Rel: rapid.SampledFrom([]string{"eq", "dbl", "half", ""}).Draw(t, "rel"), Drop: rapid.IntRange(0, 9).Draw(t, "drop") == 0,
+					Len: rapid.OneOf(rapid.IntRange(1, 20), rapid.IntRange(200, 1500)).Draw(t, "len")}
+				if rapid.IntRange(0, 2).Draw(t, "jit") == 0 {
+					s.Jit = rapid.Int64Range(1, 50).Draw(t, "jitv")
+				}
+				c.Segs = append(c.Segs, s)
+			}
+			return c
+		},
+		Run: runC15U,
 	})
 }
